@@ -155,10 +155,17 @@ def handler_preamble(chk, ex, funcs):
         chk.engine_stats[k] = chk.engine_stats.get(k, 0) + ex.eng.stats[k]
     chk.require_sat(f"{chk.prop}.{ex.kind}.pre_satisfiable", ex.st0.pc, desc="vacuity guard: the precondition of the handler exploration is satisfiable")
     if not ex.paths:
-        chk.fault(f"no paths explored for {ex.kind}")
+        chk.prove(f"{chk.prop}.{ex.kind}.pre_satisfiable", [], z3.BoolVal(False), desc=f"reachability: the {ex.kind} handler has at least one explored path")
+    from .handlers import init_contract
+    init_ok = init_contract(chk, ex)
     from .hreplay import attach_replay, crosscheck
     attach_replay(ex)
-    crosscheck(chk, ex)
+    if init_ok:
+        crosscheck(chk, ex)
+    else:
+        # the native harness builds the executor through the real __init__, the engine starts from the fields: with the __init__ contract
+        # violated (reported above) the two are not expected to agree, and a disagreement would say nothing about the engine
+        chk.notes.append(f"CPython cross-check of the {ex.kind} paths skipped: {ex.inputs['self'].cls.name}.__init__ does not store its arguments unchanged")
 
 
 # ------------------------------------------------------------------------------------------------ per-instance state (no sharing through the class)
